@@ -935,6 +935,45 @@ Proof.
   rewrite shape_print by apply shape_ty. simpl. apply app_nil_r.
 Qed.
 
+(* ------------------------------------------------------------------ UDT names in CQL strings *)
+Lemma code_dq : forall c, (code c =? 34)%N = true -> c = dq.
+Proof.
+  intros c H. apply N.eqb_eq in H. unfold code in H. rewrite <- (ascii_N_embedding c). rewrite H. reflexivity.
+Qed.
+
+Lemma qbody_spec : forall r, qbody r = true -> exists q, r = q ++ [dq] /\ forallb qsafe q = true.
+Proof.
+  induction r as [|c r IH]; intros H; [discriminate|].
+  destruct r as [|c2 r'].
+  - simpl in H. exists []. split; [|reflexivity]. rewrite (code_dq _ H). reflexivity.
+  - change (qbody (c :: c2 :: r')) with (qsafe c && qbody (c2 :: r')) in H.
+    apply andb_true_iff in H. destruct H as [Hc Hr]. destruct (IH Hr) as [q [Eq Hq]].
+    exists (c :: q). split; [simpl; rewrite Eq; reflexivity|]. simpl. rewrite Hc, Hq. reflexivity.
+Qed.
+
+Lemma quoted_name_spec : forall n, quoted_name n = true -> exists q, n = dq :: q ++ [dq] /\ forallb qsafe q = true.
+Proof.
+  intros n H. destruct n as [|c r]; [discriminate|]. simpl in H. apply andb_true_iff in H. destruct H as [Hc Hr].
+  destruct (qbody_spec _ Hr) as [q [Eq Hq]]. exists q. rewrite (code_dq _ Hc). rewrite Eq. auto.
+Qed.
+
+Lemma wf_name_cases : forall n, wf_cql_name n = true ->
+  (n <> [] /\ forallb is_alnum_ n = true /\ str_eqb n frozen_kw = false) \/
+  (exists q, n = dq :: q ++ [dq] /\ forallb qsafe q = true).
+Proof.
+  intros n H. unfold wf_cql_name in H. apply orb_true_iff in H. destruct H as [H|H].
+  - left. unfold plain_name in H. apply andb_true_iff in H. destruct H as [H H3]. apply andb_true_iff in H. destruct H as [H1 H2].
+    repeat split; auto.
+    + intros E. subst. discriminate.
+    + apply negb_true_iff. assumption.
+  - right. apply quoted_name_spec. assumption.
+Qed.
+
+Lemma wf_name_not_frozen : forall n, wf_cql_name n = true -> str_eqb n frozen_kw = false.
+Proof.
+  intros n H. destruct (wf_name_cases n H) as [(_ & _ & H1)|[q [E _]]]; auto. subst. reflexivity.
+Qed.
+
 (* ------------------------------------------------------------------ _strip_frozen_from_python *)
 Inductive Splice : list pyt -> list pyt -> Prop :=
 | Sp_nil : Splice [] []
@@ -979,7 +1018,7 @@ Proof.
   - apply Sp_str; [reflexivity|]. apply Sp_list. assumption.
   - apply Sp_frozen. cbn [app]. apply Sp_str; [reflexivity|]. apply Sp_list. assumption.
   - apply Sp_frozen. cbn [app]. apply Sp_str; auto.
-    simpl in Hwf. unfold wf_cql_name in Hwf. apply andb_true_iff in Hwf. destruct Hwf as [_ Hwf]. apply negb_true_iff in Hwf. assumption.
+    simpl in Hwf. apply wf_name_not_frozen. assumption.
   - apply Sp_str; [reflexivity|]. apply Sp_list. assumption.
   - apply Sp_frozen. apply IHt; auto.
   - apply IHt; auto.
@@ -1096,4 +1135,343 @@ Qed.
 Theorem strip_to_py : forall t, wf_cql t = true -> strip_frozen_from_python (to_py true t) = Some (to_py false t).
 Proof.
   intros t Hwf. unfold strip_frozen_from_python. apply strip_one; auto using strip_elems_ty, ht_le_size.
+Qed.
+
+(* ------------------------------------------------------------------ cqltype_to_python: the scanner on printed CQL names *)
+Definition LT : str := lit "<".
+Definition GT : str := lit ">".
+Definition CM : str := lit ",".
+Definition is_cword (w : str) : bool := forallb is_alnum_ w.
+
+Lemma alnum_cword : forall c, is_alnum_ c = true -> cql_class c = KWord /\ (code c =? 34)%N = false.
+Proof. intros c. destruct c as [[] [] [] [] [] [] [] []]; vm_compute; intros; split; congruence. Qed.
+
+Lemma cl_word : forall w rest acc, is_cword w = true -> cql_lex (w ++ rest) acc None = cql_lex rest (acc ++ w) None.
+Proof.
+  induction w as [|c w IH]; intros rest acc H.
+  - simpl. rewrite app_nil_r. reflexivity.
+  - simpl in H. apply andb_true_iff in H. destruct H as [Hc Hw]. destruct (alnum_cword _ Hc) as [H1 H2].
+    cbn [app cql_lex]. rewrite H2, H1. rewrite IH by assumption. rewrite <- app_assoc. reflexivity.
+Qed.
+
+Definition cdelim (rest : str) : Prop :=
+  match rest with
+  | [] => True
+  | c :: _ => (code c =? 34)%N = false /\ (cql_class c = KPunct \/ cql_class c = KSkip)
+  end.
+
+Lemma cl_flush : forall rest acc r, cdelim rest -> acc <> [] -> cql_lex rest [] None = Some r -> cql_lex rest acc None = Some (acc :: r).
+Proof.
+  intros rest acc r D Hacc H. destruct rest as [|c rest]; cbn [cql_lex] in *.
+  - inversion H. destruct acc; [contradiction|reflexivity].
+  - destruct D as [Hq [D|D]]; rewrite Hq, D in *.
+    + destruct (cql_lex rest [] None); try discriminate. inversion H. destruct acc; [contradiction|reflexivity].
+    + destruct (cql_lex rest [] None); try discriminate. inversion H. destruct acc; [contradiction|reflexivity].
+Qed.
+
+Lemma cl_word_delim : forall w rest r, is_cword w = true -> w <> [] -> cdelim rest ->
+  cql_lex rest [] None = Some r -> cql_lex (w ++ rest) [] None = Some (w :: r).
+Proof. intros. rewrite cl_word by assumption. apply cl_flush; assumption. Qed.
+
+Lemma cl_lt : forall rest r, cql_lex rest [] None = Some r -> cql_lex (lit "<" ++ rest) [] None = Some (LT :: r).
+Proof. intros rest r H. change (lit "<" ++ rest) with ("<"%char :: rest). cbn [cql_lex]. simpl. rewrite H. reflexivity. Qed.
+Lemma cl_gt : forall rest r, cql_lex rest [] None = Some r -> cql_lex (lit ">" ++ rest) [] None = Some (GT :: r).
+Proof. intros rest r H. change (lit ">" ++ rest) with (">"%char :: rest). cbn [cql_lex]. simpl. rewrite H. reflexivity. Qed.
+
+Definition sep_ok (sep : str) : Prop := sep = comma \/ sep = comma_sp.
+
+Lemma cl_sep : forall sep rest r, sep_ok sep -> cql_lex rest [] None = Some r -> cql_lex (sep ++ rest) [] None = Some (CM :: r).
+Proof.
+  intros sep rest r [E|E] H; subst.
+  - change (comma ++ rest) with (","%char :: rest). cbn [cql_lex]. simpl. rewrite H. reflexivity.
+  - change (comma_sp ++ rest) with (","%char :: " "%char :: rest). cbn [cql_lex]. simpl. rewrite H. reflexivity.
+Qed.
+
+Lemma cdelim_sep : forall sep rest, sep_ok sep -> cdelim (sep ++ rest).
+Proof. intros sep rest [E|E]; subst; simpl; split; auto. Qed.
+Lemma cdelim_gt : forall rest, cdelim (lit ">" ++ rest).
+Proof. intros. simpl. split; auto. Qed.
+Lemma cdelim_lt : forall rest, cdelim (lit "<" ++ rest).
+Proof. intros. simpl. split; auto. Qed.
+
+Lemma qsafe_not_dq : forall c, qsafe c = true -> (code c =? 34)%N = false.
+Proof.
+  intros c H. unfold qsafe in H. repeat (apply andb_true_iff in H; destruct H as [H _]). apply negb_true_iff in H. assumption.
+Qed.
+
+Lemma cl_inq : forall q rest q0 r, forallb qsafe q = true -> cql_lex rest [] None = Some r ->
+  cql_lex (q ++ dq :: rest) [] (Some q0) = Some ((dq :: (q0 ++ q) ++ [dq]) :: r).
+Proof.
+  induction q as [|c q IH]; intros rest q0 r Hq H.
+  - cbn [app cql_lex]. change (code dq =? 34)%N with true. cbn iota. rewrite H. rewrite app_nil_r. reflexivity.
+  - simpl in Hq. apply andb_true_iff in Hq. destruct Hq as [Hc Hq].
+    cbn [app cql_lex]. rewrite (qsafe_not_dq _ Hc), Hc. etransitivity; [exact (IH rest (q0 ++ [c]) r Hq H)|].
+    replace ((q0 ++ [c]) ++ q) with (q0 ++ c :: q) by (rewrite <- app_assoc; reflexivity). reflexivity.
+Qed.
+
+Lemma cl_quoted : forall q rest r, forallb qsafe q = true -> cql_lex rest [] None = Some r ->
+  cql_lex ((dq :: q ++ [dq]) ++ rest) [] None = Some ((dq :: q ++ [dq]) :: r).
+Proof.
+  intros q rest r Hq H. cbn [app cql_lex]. change (code dq =? 34)%N with true. cbn iota.
+  rewrite <- app_assoc. cbn [app]. pose proof (cl_inq q rest [] r Hq H) as E. cbn [app] in E.
+  match goal with |- match ?X with _ => _ end = _ => replace X with (Some ((dq :: q ++ [dq]) :: r)) by (symmetry; exact E) end. reflexivity.
+Qed.
+
+Lemma cl_name : forall n rest r, wf_cql_name n = true -> cdelim rest -> cql_lex rest [] None = Some r ->
+  cql_lex (n ++ rest) [] None = Some (n :: r).
+Proof.
+  intros n rest r Hn D H. destruct (wf_name_cases n Hn) as [(H1 & H2 & _)|[q [E Hq]]].
+  - apply cl_word_delim; auto.
+  - subst. apply cl_quoted; auto.
+Qed.
+
+Fixpoint sepj (l : list (list str)) : list str :=
+  match l with
+  | [] => []
+  | [x] => x
+  | x :: l' => x ++ CM :: sepj l'
+  end.
+
+Fixpoint ctoks (fz : bool) (t : ty) : list str :=
+  let wrap (x : list str) := if fz then frozen_kw :: LT :: x ++ [GT] else x in
+  match t with
+  | TSimple s => [cql_simple s]
+  | TList a => lit "list" :: LT :: ctoks fz a ++ [GT]
+  | TSet a => lit "set" :: LT :: ctoks fz a ++ [GT]
+  | TMap k v => lit "map" :: LT :: ctoks fz k ++ CM :: ctoks fz v ++ [GT]
+  | TTuple ts => wrap (lit "tuple" :: LT :: sepj (map (ctoks fz) ts) ++ [GT])
+  | TUdt _ n _ _ => wrap [n]
+  | TVector a d => lit "vector" :: LT :: ctoks fz a ++ CM :: d :: [GT]
+  | TFrozen a => wrap (ctoks fz a)
+  | TReversed a => ctoks fz a
+  end.
+
+Section CqlLex.
+  Variable sep : str.
+  Variable fz : bool.
+  Hypothesis Hsep : sep_ok sep.
+
+  Definition nm (t : ty) : str := cql_name_gen (lit "vector") sep fz t.
+
+  Definition clex_ok (t : ty) : Prop :=
+    wf_cql t = true -> forall rest r, cdelim rest -> cql_lex rest [] None = Some r ->
+    cql_lex (nm t ++ rest) [] None = Some (ctoks fz t ++ r).
+
+  Lemma cl_kw : forall kw body R, is_cword kw = true -> kw <> [] -> cql_lex body [] None = Some R ->
+    cql_lex (kw ++ lit "<" ++ body) [] None = Some (kw :: LT :: R).
+  Proof. intros kw body R Hk Hn HB. apply (cl_word_delim kw (lit "<" ++ body) (LT :: R)); auto; [apply cdelim_lt|apply cl_lt; assumption]. Qed.
+
+  Lemma cl_unary : forall kw a, is_cword kw = true -> kw <> [] -> clex_ok a -> wf_cql a = true ->
+    forall rest r, cdelim rest -> cql_lex rest [] None = Some r ->
+    cql_lex (((kw ++ lit "<") ++ nm a ++ lit ">") ++ rest) [] None = Some ((kw :: LT :: ctoks fz a ++ [GT]) ++ r).
+  Proof.
+    intros kw a Hk Hn IH Hwf rest r D H. rewrite <- !app_assoc.
+    change ((kw :: LT :: ctoks fz a ++ [GT]) ++ r) with (kw :: LT :: (ctoks fz a ++ [GT]) ++ r). rewrite <- app_assoc.
+    apply cl_kw; auto. apply IH; auto using cdelim_gt. apply cl_gt. assumption.
+  Qed.
+
+  Lemma cl_wrap : forall (x : str) (xt : list str),
+    (forall rest r, cdelim rest -> cql_lex rest [] None = Some r -> cql_lex (x ++ rest) [] None = Some (xt ++ r)) ->
+    forall rest r, cdelim rest -> cql_lex rest [] None = Some r ->
+    cql_lex ((if fz then lit "frozen<" ++ x ++ lit ">" else x) ++ rest) [] None
+    = Some ((if fz then frozen_kw :: LT :: xt ++ [GT] else xt) ++ r).
+  Proof.
+    intros x xt Hx rest r D H. destruct fz; [|apply Hx; assumption].
+    change (lit "frozen<") with (frozen_kw ++ lit "<"). rewrite <- !app_assoc.
+    change ((frozen_kw :: LT :: xt ++ [GT]) ++ r) with (frozen_kw :: LT :: (xt ++ [GT]) ++ r). rewrite <- app_assoc.
+    apply cl_kw; try reflexivity; try discriminate. apply Hx; auto using cdelim_gt. apply cl_gt. assumption.
+  Qed.
+
+  Lemma cl_list : forall ts, Forall clex_ok ts -> forallb wf_cql ts = true -> forall rest r, cql_lex rest [] None = Some r ->
+    cql_lex (join sep (map nm ts) ++ lit ">" ++ rest) [] None = Some (sepj (map (ctoks fz) ts) ++ GT :: r).
+  Proof.
+    intros ts H. induction H as [|x l Hx Hl IH]; intros Hwf rest r Hr.
+    - simpl. apply cl_gt. assumption.
+    - simpl in Hwf. apply andb_true_iff in Hwf. destruct Hwf as [Hwx Hwl]. destruct l as [|y l'].
+      + cbn [map join sepj]. apply Hx; [assumption|apply cdelim_gt|apply cl_gt; assumption].
+      + change (join sep (map nm (x :: y :: l'))) with (nm x ++ sep ++ join sep (map nm (y :: l'))).
+        change (sepj (map (ctoks fz) (x :: y :: l'))) with (ctoks fz x ++ CM :: sepj (map (ctoks fz) (y :: l'))).
+        rewrite <- !app_assoc. apply Hx; [assumption|apply cdelim_sep; assumption|].
+        cbn [app]. apply cl_sep; auto.
+  Qed.
+
+  Lemma simple_cword : forall s, is_cword (cql_simple s) = true /\ cql_simple s <> [].
+  Proof. destruct s; split; try reflexivity; discriminate. Qed.
+
+  Lemma clex_ty : forall t, clex_ok t.
+  Proof.
+    apply ty_ind2; unfold clex_ok, nm.
+    - intros s _ rest r D H. cbn [cql_name_gen ctoks]. destruct (simple_cword s). apply cl_word_delim; auto.
+    - intros a IH Hwf rest r D H. cbn [cql_name_gen ctoks]. change (lit "list<") with (lit "list" ++ lit "<").
+      apply cl_unary; auto; try reflexivity. discriminate.
+    - intros a IH Hwf rest r D H. cbn [cql_name_gen ctoks]. change (lit "set<") with (lit "set" ++ lit "<").
+      apply cl_unary; auto; try reflexivity. discriminate.
+    - intros k v IHk IHv Hwf rest r D H. cbn [cql_name_gen ctoks]. simpl in Hwf. apply andb_true_iff in Hwf. destruct Hwf as [Hk Hv].
+      change (lit "map<") with (lit "map" ++ lit "<"). rewrite <- !app_assoc.
+      change ((lit "map" :: LT :: ctoks fz k ++ CM :: ctoks fz v ++ [GT]) ++ r)
+        with (lit "map" :: LT :: (ctoks fz k ++ CM :: ctoks fz v ++ [GT]) ++ r).
+      apply cl_kw; try reflexivity; try discriminate.
+      rewrite <- app_assoc. apply IHk; auto using cdelim_sep. cbn [app]. apply cl_sep; auto.
+      rewrite <- app_assoc. apply IHv; auto using cdelim_gt. apply cl_gt. assumption.
+    - intros ts IH Hwf rest r D H. cbn [cql_name_gen ctoks]. simpl in Hwf.
+      apply cl_wrap; auto. intros rest' r' D' H'.
+      change (lit "tuple<") with (lit "tuple" ++ lit "<"). rewrite <- !app_assoc.
+      change ((lit "tuple" :: LT :: sepj (map (ctoks fz) ts) ++ [GT]) ++ r')
+        with (lit "tuple" :: LT :: (sepj (map (ctoks fz) ts) ++ [GT]) ++ r').
+      apply cl_kw; try reflexivity; try discriminate. rewrite <- app_assoc. apply cl_list; auto.
+    - intros ks n fn ft IH Hwf rest r D H. cbn [cql_name_gen ctoks]. simpl in Hwf.
+      apply cl_wrap; auto. intros rest' r' D' H'. apply cl_name; auto.
+    - intros a d IH Hwf rest r D H. cbn [cql_name_gen ctoks]. simpl in Hwf. apply andb_true_iff in Hwf. destruct Hwf as [Ha Hd].
+      change (lit "vector" ++ lit "<" ++ cql_name_gen (lit "vector") sep fz a ++ sep ++ d ++ lit ">")
+        with (lit "vector" ++ lit "<" ++ nm a ++ sep ++ d ++ lit ">").
+      rewrite <- !app_assoc.
+      change ((lit "vector" :: LT :: ctoks fz a ++ CM :: [d; GT]) ++ r)
+        with (lit "vector" :: LT :: (ctoks fz a ++ CM :: [d; GT]) ++ r).
+      apply cl_kw; try reflexivity; try discriminate.
+      rewrite <- app_assoc. apply IH; auto using cdelim_sep. cbn [app]. apply cl_sep; auto.
+      unfold wf_dim in Hd. apply andb_true_iff in Hd. destruct Hd as [Hd _]. apply andb_true_iff in Hd. destruct Hd as [Hd1 Hd2].
+      apply cl_word_delim; auto using cdelim_gt.
+      + apply digit_alnum. assumption.
+      + intros E. subst. discriminate.
+      + apply cl_gt. assumption.
+    - intros a IH Hwf rest r D H. cbn [cql_name_gen ctoks]. apply cl_wrap; auto; intros; apply IH; auto.
+    - intros a IH Hwf rest r D H. cbn [cql_name_gen ctoks]. apply IH; auto.
+  Qed.
+End CqlLex.
+
+(* ------------------------------------------------------------------ cqltype_to_python: literal_eval of the scanned tokens *)
+Definition is_name_tok (tok : str) : Prop := str_eqb tok LT = false /\ str_eqb tok GT = false /\ str_eqb tok CM = false.
+
+Lemma py_word : forall tok rest st top stack, is_name_tok tok -> st <> AfterElem ->
+  py_run (tok :: rest) st (top :: stack) = py_run rest AfterElem ((PStr tok :: top) :: stack).
+Proof.
+  intros tok rest st top stack (H1 & H2 & H3) Hst. unfold LT, GT, CM in *. cbn [py_run]. rewrite H1, H2, H3.
+  destruct st; [contradiction| |]; reflexivity.
+Qed.
+
+Lemma py_lt : forall rest stack, py_run (LT :: rest) AfterElem stack = py_run rest AtStart ([] :: stack).
+Proof. reflexivity. Qed.
+Lemma py_cm : forall rest stack, py_run (CM :: rest) AfterElem stack = py_run rest AfterComma stack.
+Proof. reflexivity. Qed.
+Lemma py_gt : forall rest st inner outer stack, st <> AfterComma ->
+  py_run (GT :: rest) st (inner :: outer :: stack) = py_run rest AfterElem ((PList (rev inner) :: outer) :: stack).
+Proof. intros rest st inner outer stack H. destruct st; [reflexivity|contradiction|reflexivity]. Qed.
+
+Lemma name_tok_first : forall c w, (code c =? 60)%N = false -> (code c =? 62)%N = false -> (code c =? 44)%N = false -> is_name_tok (c :: w).
+Proof.
+  intros c w H1 H2 H3. repeat split; simpl.
+  - destruct (Ascii.eqb_spec c "<"%char); [subst; discriminate|reflexivity].
+  - destruct (Ascii.eqb_spec c ">"%char); [subst; discriminate|reflexivity].
+  - destruct (Ascii.eqb_spec c ","%char); [subst; discriminate|reflexivity].
+Qed.
+
+Lemma alnum_not_punct : forall c, is_alnum_ c = true -> (code c =? 60)%N = false /\ (code c =? 62)%N = false /\ (code c =? 44)%N = false.
+Proof. intros c. destruct c as [[] [] [] [] [] [] [] []]; vm_compute; intros; repeat split; congruence. Qed.
+
+Lemma cword_name_tok : forall w, is_cword w = true -> w <> [] -> is_name_tok w.
+Proof.
+  intros w H Hn. destruct w as [|c w]; [contradiction|]. simpl in H. apply andb_true_iff in H. destruct H as [Hc _].
+  destruct (alnum_not_punct _ Hc) as (H1 & H2 & H3). apply name_tok_first; assumption.
+Qed.
+
+Lemma wf_name_tok : forall n, wf_cql_name n = true -> is_name_tok n.
+Proof.
+  intros n H. destruct (wf_name_cases n H) as [(H1 & H2 & _)|[q [E _]]].
+  - apply cword_name_tok; assumption.
+  - subst. apply name_tok_first; reflexivity.
+Qed.
+
+Section PyRun.
+  Variable fz : bool.
+
+  Definition pyrun_ok (t : ty) : Prop :=
+    wf_cql t = true -> forall rest st top stack, st <> AfterElem ->
+    py_run (ctoks fz t ++ rest) st (top :: stack) = py_run rest AfterElem ((rev (to_py fz t) ++ top) :: stack).
+
+  Lemma py_unary : forall kw a, is_name_tok kw -> pyrun_ok a -> wf_cql a = true ->
+    forall rest st top stack, st <> AfterElem ->
+    py_run ((kw :: LT :: ctoks fz a ++ [GT]) ++ rest) st (top :: stack)
+    = py_run rest AfterElem ((PList (to_py fz a) :: PStr kw :: top) :: stack).
+  Proof.
+    intros kw a Hk IH Hwf rest st top stack Hst. cbn [app]. rewrite py_word by assumption. rewrite py_lt.
+    rewrite <- app_assoc. rewrite IH by (auto; discriminate). cbn [app]. rewrite py_gt by discriminate.
+    rewrite app_nil_r, rev_involutive. reflexivity.
+  Qed.
+
+  Lemma py_wrap : forall (xt : list str) (x : list pyt),
+    (forall rest st top stack, st <> AfterElem -> py_run (xt ++ rest) st (top :: stack) = py_run rest AfterElem ((rev x ++ top) :: stack)) ->
+    forall rest st top stack, st <> AfterElem ->
+    py_run ((if fz then frozen_kw :: LT :: xt ++ [GT] else xt) ++ rest) st (top :: stack)
+    = py_run rest AfterElem ((rev (if fz then [PStr frozen_kw; PList x] else x) ++ top) :: stack).
+  Proof.
+    intros xt x Hx rest st top stack Hst. destruct fz; [|apply Hx; assumption].
+    cbn [app]. rewrite py_word; [|repeat split; reflexivity|assumption]. rewrite py_lt.
+    rewrite <- app_assoc. rewrite Hx by discriminate. cbn [app]. rewrite py_gt by discriminate.
+    rewrite app_nil_r, rev_involutive. reflexivity.
+  Qed.
+
+  Lemma py_seq : forall ts, Forall pyrun_ok ts -> forallb wf_cql ts = true -> ts <> [] ->
+    forall rest st top stack, st <> AfterElem ->
+    py_run (sepj (map (ctoks fz) ts) ++ rest) st (top :: stack) = py_run rest AfterElem ((rev (flat_map (to_py fz) ts) ++ top) :: stack).
+  Proof.
+    intros ts H. induction H as [|x l Hx Hl IH]; intros Hwf Hne rest st top stack Hst; [contradiction|].
+    simpl in Hwf. apply andb_true_iff in Hwf. destruct Hwf as [Hwx Hwl]. destruct l as [|y l'].
+    - cbn [map sepj flat_map]. rewrite app_nil_r. apply Hx; assumption.
+    - change (sepj (map (ctoks fz) (x :: y :: l'))) with (ctoks fz x ++ CM :: sepj (map (ctoks fz) (y :: l'))).
+      rewrite <- app_assoc. rewrite Hx by assumption. cbn [app]. rewrite py_cm.
+      rewrite IH; [|assumption|discriminate|discriminate].
+      change (flat_map (to_py fz) (x :: y :: l')) with (to_py fz x ++ flat_map (to_py fz) (y :: l')).
+      rewrite rev_app_distr. rewrite <- app_assoc. reflexivity.
+  Qed.
+
+  Lemma simple_name_tok : forall s, is_name_tok (cql_simple s).
+  Proof. destruct s; repeat split; reflexivity. Qed.
+
+  Lemma pyrun_ty : forall t, pyrun_ok t.
+  Proof.
+    apply ty_ind2; unfold pyrun_ok.
+    - intros s _ rest st top stack Hst. cbn [ctoks to_py app rev]. apply py_word; auto using simple_name_tok.
+    - intros a IH Hwf rest st top stack Hst. cbn [ctoks to_py]. rewrite py_unary; auto. repeat split; reflexivity.
+    - intros a IH Hwf rest st top stack Hst. cbn [ctoks to_py]. rewrite py_unary; auto. repeat split; reflexivity.
+    - intros k v IHk IHv Hwf rest st top stack Hst. cbn [ctoks to_py]. simpl in Hwf. apply andb_true_iff in Hwf. destruct Hwf as [Hk Hv].
+      cbn [app]. rewrite py_word; [|repeat split; reflexivity|assumption]. rewrite py_lt.
+      rewrite <- app_assoc. rewrite IHk by (auto; discriminate). cbn [app]. rewrite py_cm.
+      rewrite <- app_assoc. rewrite IHv by (auto; discriminate). cbn [app]. rewrite py_gt by discriminate.
+      rewrite app_nil_r. rewrite rev_app_distr, !rev_involutive. reflexivity.
+    - intros ts IH Hwf rest st top stack Hst. cbn [ctoks to_py]. simpl in Hwf.
+      apply py_wrap; auto. intros rest' st' top' stack' Hst'.
+      cbn [app]. rewrite py_word; [|repeat split; reflexivity|assumption]. rewrite py_lt.
+      destruct ts as [|x l].
+      + cbn [map sepj app flat_map]. rewrite py_gt by discriminate. reflexivity.
+      + rewrite <- app_assoc. rewrite py_seq; [|assumption|assumption|discriminate|discriminate].
+        cbn [app]. rewrite py_gt by discriminate. rewrite app_nil_r, rev_involutive. reflexivity.
+    - intros ks n fn ft IH Hwf rest st top stack Hst. cbn [ctoks to_py]. simpl in Hwf.
+      apply py_wrap; auto. intros rest' st' top' stack' Hst'. cbn [app rev]. apply py_word; auto using wf_name_tok.
+    - intros a d IH Hwf rest st top stack Hst. cbn [ctoks to_py]. simpl in Hwf. apply andb_true_iff in Hwf. destruct Hwf as [Ha Hd].
+      cbn [app]. rewrite py_word; [|repeat split; reflexivity|assumption]. rewrite py_lt.
+      rewrite <- app_assoc. rewrite IH by (auto; discriminate). cbn [app]. rewrite py_cm.
+      rewrite py_word; [| |discriminate].
+      2:{ unfold wf_dim in Hd. apply andb_true_iff in Hd. destruct Hd as [Hd _]. apply andb_true_iff in Hd. destruct Hd as [Hd1 Hd2].
+          apply cword_name_tok; [apply digit_alnum; assumption|intros E; subst; discriminate]. }
+      rewrite py_gt by discriminate. rewrite app_nil_r.
+      change (PStr d :: rev (to_py fz a)) with (rev [PStr d] ++ rev (to_py fz a)). rewrite <- rev_app_distr, rev_involutive. reflexivity.
+    - intros a IH Hwf rest st top stack Hst. cbn [ctoks to_py]. apply py_wrap; auto.
+    - intros a IH Hwf rest st top stack Hst. cbn [ctoks to_py]. apply IH; auto.
+  Qed.
+End PyRun.
+
+Theorem parse_cql_name : forall sep fz t, sep_ok sep -> wf_cql t = true ->
+  cqltype_to_python (cql_name_gen (lit "vector") sep fz t) = Some (to_py fz t).
+Proof.
+  intros sep fz t Hsep Hwf. unfold cqltype_to_python.
+  pose proof (clex_ty sep fz Hsep t Hwf [] [] I eq_refl) as HL. unfold nm in HL. rewrite !app_nil_r in HL. rewrite HL.
+  pose proof (pyrun_ty fz t Hwf [] AtStart [] [] ltac:(discriminate)) as HR. rewrite !app_nil_r in HR.
+  etransitivity; [exact HR|]. simpl. rewrite rev_involutive. reflexivity.
+Qed.
+
+Theorem strip_frozen_name : forall sep t, sep_ok sep -> wf_cql t = true ->
+  strip_frozen (cql_name_gen (lit "vector") sep true t) = Some (cname false t).
+Proof.
+  intros sep t Hsep Hwf. unfold strip_frozen. rewrite parse_cql_name by assumption.
+  rewrite strip_to_py by assumption. rewrite print_to_py. reflexivity.
 Qed.
